@@ -28,6 +28,8 @@ var apiFiles = []treeFile{
 		"@component(\"~c\", {n: who})@slot{{ who.upper() }}@end@end@end"},
 	{Name: "bad", Src: "PARTIAL-OUTPUT-MARKER {{ who }}\n{{ items[0] / 0 }} after"},
 	{Name: "err", Src: "<custom>error page</custom>"},
+	{Name: "setvar", Src: "{{ total = 3 }}set:{{ total }}"},
+	{Name: "getvar", Src: "get:{{ total }}"},
 }
 
 const okPage = "<h>T</h><b>(1,)(2,)(3)[Bo:BO]</b>"
@@ -67,6 +69,7 @@ type apiCase struct {
 		Step string `json:"step"`
 	} `json:"sched"`
 	Expect json.RawMessage `json:"expect"`
+	ExpOk  []bool          `json:"expok"` // the model's prediction: does operation k succeed?
 }
 
 type apiEnv struct {
@@ -110,6 +113,9 @@ func (e *apiEnv) reload() error {
 // run executes one operation on the real code and returns its signature (root path normalised).
 func (e *apiEnv) run(o apiOp) (sig string, body string, ok bool) {
 	data := apiData()
+	if o.Page == "setvar" || o.Page == "getvar" {
+		data = nil // renders without data: top-level names must not survive the call
+	}
 	norm := func(s string) string { return strings.ReplaceAll(s, e.root, "$ROOT") }
 	switch o.K {
 	case "String":
@@ -130,7 +136,13 @@ func (e *apiEnv) run(o apiOp) (sig string, body string, ok bool) {
 		}
 	case "EvalString":
 		src := "s:{{ who }}{{ items }}"
-		if o.Page != "ok" {
+		switch o.Page {
+		case "ok":
+		case "setvar":
+			src = "{{ total = \"s\" }}s:{{ total }}"
+		case "getvar":
+			src = "s:{{ total }}"
+		default:
 			src = "s:{{ who }}{{ items[0] / 0 }}"
 		}
 		out, err := textwire.EvaluateString(src, data)
@@ -149,7 +161,7 @@ func (e *apiEnv) run(o apiOp) (sig string, body string, ok bool) {
 	default:
 		sig = "unknown op " + o.K
 	}
-	if !reflect.DeepEqual(data, apiData()) {
+	if data != nil && !reflect.DeepEqual(data, apiData()) {
 		sig += " DATA-MODIFIED"
 	}
 	return
@@ -251,6 +263,13 @@ func apiFamily(raw json.RawMessage) Result {
 		base := stateSig(e)
 		for i, o := range c.Ops {
 			sig, body, ok := e.run(o.Op)
+			if i < len(c.ExpOk) && ok != c.ExpOk[i] {
+				res.Status, res.Kind = "viol", "history-dependence"
+				res.Msg = fmt.Sprintf("operation %d %v returned %q; the specification says it %s whatever ran before", i+1, o.Op, sig,
+					map[bool]string{true: "succeeds", false: "fails"}[c.ExpOk[i]])
+				res.Tags = append(res.Tags, o.Op.K+":"+o.Op.Page)
+				return res
+			}
 			if sig != solos[o.Op] {
 				res.Status, res.Kind = "viol", "history-dependence"
 				res.Msg = fmt.Sprintf("operation %d %v returned %q; issued first in a fresh state it returns %q", i+1, o.Op, sig, solos[o.Op])
